@@ -50,6 +50,21 @@ Theorem C16_ops_layout_refuted :
   exists start sds ops q, 1 <= start /\ run (build start sds) ops = Done q /\ ~ layout false q.
 Proof. exact ops_layout_refuted. Qed.
 
+(** Histories in which services are assembled BY HAND: the Python-object construction order is
+    part of the history.  Service objects are created empty and stay pending while, in any
+    order and interleaved with every operation on the profile, characteristics are attached
+    to them, descriptors are added to already attached characteristics (leaving the service's
+    own end handle stale), include definitions are added; [HRegister] passes one to
+    add_service.  For ALL such histories no step raises and the layout holds after the run
+    (hence, the statement being about every history, after every step); it is contiguous
+    from the start handle when the history contains no remove_service. *)
+Theorem C16_hand_assembly_histories :
+  forall (start : N) (sds : list sdef) (hs : list hop),
+    1 <= start ->
+    exists q pend, hrun (build start sds, []) hs = (Done q, pend) /\ layout true q /\ p_start q = start
+                   /\ (forallb hop_no_remove hs = true -> layout false q).
+Proof. exact hist_layout. Qed.
+
 (** Building is a pure function of (definition, start handle) that creates fresh objects:
     two instances (of one class or of two), the second built from the object identities the
     first left unused, both have the full layout at their own start handle, and no object
